@@ -44,7 +44,30 @@ impl AstLowering {
         let kind = match decl {
             ast::Declaration::Function(f) => IrDeclKind::Function(self.lower_function(f)?),
             ast::Declaration::Const(c) => {
-                let value = self.lower_expr_spanned(&c.value)?;
+                let mut value = self.lower_expr_spanned(&c.value)?;
+                // The checker evaluates more than a Rust `const` item can: `//`, `%`, `/`, float `**`, string
+                // comparison/membership/indexing/slicing lower to runtime helper calls. Emit the value the
+                // checker computed for those, so compile time and run time cannot disagree.
+                if Self::const_needs_folding(&c.value.node) {
+                    use crate::backend::ir::{IrExprKind, TypedExpr};
+                    use crate::frontend::typechecker::ConstValue;
+                    let folded = self
+                        .type_info
+                        .as_ref()
+                        .and_then(|ti| ti.const_value(&c.name))
+                        .and_then(|cv| match cv {
+                            ConstValue::Int(i) => Some(TypedExpr::new(IrExprKind::Int(*i), IrType::Int)),
+                            ConstValue::Float(f) => Some(TypedExpr::new(IrExprKind::Float(*f), IrType::Float)),
+                            ConstValue::Bool(b) => Some(TypedExpr::new(IrExprKind::Bool(*b), IrType::Bool)),
+                            ConstValue::FrozenStr(s) => {
+                                Some(TypedExpr::new(IrExprKind::String(s.clone()), IrType::String))
+                            }
+                            _ => None,
+                        });
+                    if let Some(folded) = folded {
+                        value = folded;
+                    }
+                }
                 // RFC 008: In const context, annotations imply frozen/static types.
                 // Prefer frozen annotation if present; otherwise use the initializer type.
                 let ty = if let Some(ann) = &c.ty {
@@ -106,6 +129,29 @@ impl AstLowering {
             }
         };
         Ok(IrDecl::new(kind))
+    }
+
+    /// Does a const initialiser use an operation that is not a Rust constant expression?
+    fn const_needs_folding(expr: &ast::Expr) -> bool {
+        use ast::BinaryOp as B;
+        match expr {
+            // `a + b + c` on strings: only a single `concat!` of two operands is a constant expression
+            ast::Expr::Binary(l, B::Add, r)
+                if matches!(&l.node, ast::Expr::Binary(_, B::Add, _)) || matches!(&r.node, ast::Expr::Binary(_, B::Add, _)) =>
+            {
+                true
+            }
+            ast::Expr::Binary(l, op, r) => {
+                matches!(
+                    op,
+                    B::Div | B::FloorDiv | B::Mod | B::Pow | B::In | B::NotIn | B::Eq | B::NotEq | B::Lt | B::Gt | B::LtEq | B::GtEq
+                ) || Self::const_needs_folding(&l.node)
+                    || Self::const_needs_folding(&r.node)
+            }
+            ast::Expr::Unary(_, e) | ast::Expr::Paren(e) => Self::const_needs_folding(&e.node),
+            ast::Expr::Index(..) | ast::Expr::Slice(..) | ast::Expr::MethodCall(..) => true,
+            _ => false,
+        }
     }
 
     /// Lower a function declaration.
